@@ -552,17 +552,6 @@ func init() {
 		nk := len(c05Kinds)
 		_ = nk
 		return &Check{ID: "C05", Scenarios: []Scenario{
-			{Name: "strings", Count: func(tier string) int { return 2 * feStringsCount(feLen(tier)) }, Run: func(tier string, idx int, r *Result) {
-				n := feStringsCount(feLen(tier))
-				c05Both(feString(idx%n), idx/n, nil, []string{"family:strings"}, false, r)
-			}},
-			{Name: "token-sequences", Count: func(tier string) int { return 2 * len(c05Contexts) * c05SeqCount(c05SeqLen(tier)) }, Run: func(tier string, idx int, r *Result) {
-				d := radix(idx, len(c05Contexts), c05SeqCount(c05SeqLen(tier)), 2)
-				ctx := c05Contexts[d[0]]
-				text := ctx.pre + strings.Join(c05Seq(d[1]), " ") + ctx.post
-				r.Sample(text)
-				c05Both(text, d[2], nil, []string{"family:token-sequences", "context:" + ctx.name}, false, r)
-			}},
 			{Name: "hot-token-sequences", Count: func(tier string) int {
 				return c05HotRoles(tier) * len(c05Contexts) * ipow(len(c05Hot), c05HotLen(tier))
 			}, Run: func(tier string, idx int, r *Result) {
@@ -621,6 +610,18 @@ func init() {
 				}
 				r.Outcome(shape)
 				c05Run(mods, "main", []string{"family:import-graphs", shape}, "import graph {"+edges+"}: "+strings.Join(ms, "; "), false, r)
+			}},
+			// last: the two largest spaces; in the thorough tier they may use up the remaining budget
+			{Name: "strings", Count: func(tier string) int { return 2 * feStringsCount(feLen(tier)) }, Run: func(tier string, idx int, r *Result) {
+				n := feStringsCount(feLen(tier))
+				c05Both(feString(idx%n), idx/n, nil, []string{"family:strings"}, false, r)
+			}},
+			{Name: "token-sequences", Count: func(tier string) int { return 2 * len(c05Contexts) * c05SeqCount(c05SeqLen(tier)) }, Run: func(tier string, idx int, r *Result) {
+				d := radix(idx, len(c05Contexts), c05SeqCount(c05SeqLen(tier)), 2)
+				ctx := c05Contexts[d[0]]
+				text := ctx.pre + strings.Join(c05Seq(d[1]), " ") + ctx.post
+				r.Sample(text)
+				c05Both(text, d[2], nil, []string{"family:token-sequences", "context:" + ctx.name}, false, r)
 			}},
 		}}
 	})
